@@ -12,9 +12,11 @@ ASSUMPTIONS = [
     "generated projects also pass some dependencies inside one dict / list / tuple argument together with plain values; some task modules live in "
     "sub-directories with a section-less pyproject.toml and histories mix builds of the whole project with builds of one sub-directory "
     "(model: the project restricted to the tasks collected there, same world)",
+    "histories also address the unchanged project through other spellings (../name from a sibling directory, a symlink alias), switch an untracked "
+    "fail-flag file on and off, and exchange the contents of inputs that form one hashed Python value",
 ]
-EDITS = ["touch", "touch", "rewrite_same", "rewrite_same", "write", "revert", "bump", "revert_module", "tamper", "delete_product", "add_task"]
-CFGS = [{}, {}, {}, {"k": "task_t00x"}, {"k": "task_t01x or task_t02x"}, {"dry": True}, {"force": True}, {"sub": "?"}, {"sub": "?"}]
+EDITS = ["touch", "touch", "rewrite_same", "rewrite_same", "write", "revert", "bump", "revert_module", "tamper", "delete_product", "add_task", "flag", "swap"]
+CFGS = [{}, {}, {}, {"k": "task_t00x"}, {"k": "task_t01x or task_t02x"}, {"dry": True}, {"force": True}, {"sub": "?"}, {"sub": "?"}, {"via": "rel"}, {"via": "link"}]
 
 
 def oracle(hist, records):
@@ -45,7 +47,7 @@ def histories(ctx):
     rng = ctx.rng
     hs = []
     for i in range(ctx.scale(70, 800)):
-        spec = engine.gen_spec(rng, nt=(2, 7), after_p=0.2, after_needs_prods=True, link_p=0.3, dirprod_p=0.3, hashed_p=0.25, bag_p=0.3, subdir_p=0.35)
+        spec = engine.gen_spec(rng, nt=(2, 7), after_p=0.2, after_needs_prods=True, link_p=0.3, dirprod_p=0.3, hashed_p=0.25, bag_p=0.3, subdir_p=0.35, pygroup_p=0.25)
         h = histgen.random_history(rng, spec, rng.randint(4, 10), EDITS, CFGS, final_build={})
         h["steps"] = [["build", {}]] + h["steps"] + [["build", {}]]
         hs.append(h)
